@@ -16,8 +16,8 @@
 EXTENDS SchemaOps, Json
 CONSTANTS MaxA, MaxB, MaxPairs, Modes
 
-VARIABLES s1, s2, b1, b2, e, phase, off
-vars == <<s1, s2, b1, b2, e, phase, off>>
+VARIABLES s1, s2, b1, b2, e, e2, phase, off
+vars == <<s1, s2, b1, b2, e, e2, phase, off>>
 
 G1(n) == Glob(n)
 Ref(a) == [r |-> TRUE, s |-> a]
@@ -42,30 +42,34 @@ EmplaceF(S, p, u) ==
 FreshIds == <<101, 102, 103, 104, 105, 106>>
 
 SwapNeeded2(k, v) == LET ck == s1.c[k].kind  cv == s2.c[v].kind IN ck # cv /\ ~IsBaseSetKind(ck) /\ IsBaseNotionKind(cv)
-Init == SInit /\ s1 = Empty0 /\ s2 = Empty0 /\ b1 = <<>> /\ b2 = <<>> /\ e = <<>> /\ phase = "a" /\ off = 0
+Init == SInit /\ s1 = Empty0 /\ s2 = Empty0 /\ b1 = <<>> /\ b2 = <<>> /\ e = <<>> /\ e2 = <<>> /\ phase = "a" /\ off = 0
 Next ==
   \/ /\ phase = "a" /\ Len(b1) < MaxA
      /\ \E i \in PoolA : (Len(b1) = 0 => i = 1) /\ s1' = EmplaceF(s1, Pool[i], Len(b1) + 1) /\ b1' = Append(b1, i)
-     /\ UNCHANGED <<s2, b2, e, phase, off>>
+     /\ UNCHANGED <<s2, b2, e, e2, phase, off>>
   \/ /\ phase = "a" /\ Len(b1) > 0 /\ "synth" \in Modes
-     /\ \E o \in {0, 10} : off' = o /\ phase' = "b" /\ UNCHANGED <<s1, s2, b1, b2, e>>
-  \/ /\ phase = "a" /\ Len(b1) > 1 /\ "equate" \in Modes /\ phase' = "t1" /\ UNCHANGED <<s1, s2, b1, b2, e, off>>
+     /\ \E o \in {0, 10} : off' = o /\ phase' = "b" /\ UNCHANGED <<s1, s2, b1, b2, e, e2>>
+  \/ /\ phase = "a" /\ Len(b1) > 1 /\ "equate" \in Modes /\ phase' = "t1" /\ UNCHANGED <<s1, s2, b1, b2, e, e2, off>>
   \/ /\ phase = "b" /\ Len(b2) < MaxB
      /\ \E i \in PoolB : (Len(b2) = 0 => i = 1) /\ s2' = EmplaceF(s2, Pool[i], off + Len(b2) + 1) /\ b2' = Append(b2, i)
-     /\ UNCHANGED <<s1, b1, e, phase, off>>
-  \/ /\ phase = "b" /\ Len(b2) > 0 /\ phase' = "t" /\ UNCHANGED <<s1, s2, b1, b2, e, off>>
+     /\ UNCHANGED <<s1, b1, e, e2, phase, off>>
+  \/ /\ phase = "b" /\ Len(b2) > 0 /\ phase' = "t" /\ UNCHANGED <<s1, s2, b1, b2, e, e2, off>>
   \* tables: keys ascending (each table is built once); a value may serve two keys only when no pair has to be swapped
   \/ /\ phase = "t" /\ Cardinality(DOMAIN e) < MaxPairs
      /\ \E k \in DOMAIN s1.c, v \in DOMAIN s2.c :
           /\ \A x \in DOMAIN e : x < k
           /\ (\E x \in DOMAIN e : e[x] = v) => (~SwapNeeded2(k, v) /\ \A x \in DOMAIN e : ~SwapNeeded2(x, e[x]))
           /\ e' = (k :> v) @@ e
-     /\ UNCHANGED <<s1, s2, b1, b2, phase, off>>
-  \/ /\ phase = "t" /\ phase' = "done" /\ UNCHANGED <<s1, s2, b1, b2, e, off>>
+     /\ UNCHANGED <<s1, s2, b1, b2, e2, phase, off>>
+  \/ /\ phase = "t" /\ phase' = "done" /\ UNCHANGED <<s1, s2, b1, b2, e, e2, off>>
   \/ /\ phase = "t1" /\ Cardinality(DOMAIN e) < MaxPairs
      /\ \E k \in DOMAIN s1.c, v \in DOMAIN s1.c : (\A x \in DOMAIN e : x < k) /\ e' = (k :> v) @@ e
-     /\ UNCHANGED <<s1, s2, b1, b2, phase, off>>
-  \/ /\ phase = "t1" /\ phase' = "done1" /\ UNCHANGED <<s1, s2, b1, b2, e, off>>
+     /\ UNCHANGED <<s1, s2, b1, b2, e2, phase, off>>
+  \/ /\ phase = "t1" /\ phase' = "done1" /\ UNCHANGED <<s1, s2, b1, b2, e, e2, off>>
+  \* a second table on the result of the first (the same RSForm is equated twice)
+  \/ /\ phase = "t1" /\ "equate2" \in Modes /\ DOMAIN e # {} /\ EqAdmissible(s1, e)
+     /\ LET r == Equate(s1, e, {}) IN \E k \in DOMAIN r.c, v \in DOMAIN r.c : k # v /\ e2' = (k :> v)
+     /\ phase' = "done2" /\ UNCHANGED <<s1, s2, b1, b2, e, off>>
 \* the variables of Schema.tla are not used here (schemas are values); they stay empty
 Spec == Init /\ [][Next /\ UNCHANGED svars]_<<vars, svars>>
 
@@ -93,7 +97,17 @@ EquateCase ==
    items |-> IF ok THEN Items(r.ord, r.c) ELSE <<>>,
    tr |-> IF ok THEN PairsOf([u \in DOMAIN s1.c |-> FinalOf(u, r.pairs, 8)]) ELSE <<>>,
    noDangling1 |-> NoDangling(s1), correct |-> FullyCorrect(s1), like |-> LikeWithLike(s1.c, e)]
+Equate2Case ==
+  LET r1 == Equate(s1, e, {})
+      S == [ord |-> r1.ord, c |-> r1.c]
+      ok == EqAdmissible(S, e2)
+      r == Equate(S, e2, {}) IN
+  [mode |-> "equate2", a |-> Steps(b1, 0), first |-> PairsOf(e), table |-> PairsOf(e2), defined |-> ok,
+   items |-> IF ok THEN Items(r.ord, r.c) ELSE <<>>,
+   tr |-> IF ok THEN PairsOf([u \in DOMAIN S.c |-> FinalOf(u, r.pairs, 8)]) ELSE <<>>,
+   noDangling1 |-> NoDangling(S), correct |-> FullyCorrect(S), like |-> LikeWithLike(S.c, e2)]
 Emit == CASE phase = "done" -> PrintT(<<"CASE", ToJson(SynthCase)>>)
+          [] phase = "done2" -> PrintT(<<"CASE", ToJson(Equate2Case)>>)
           [] phase = "done1" -> PrintT(<<"CASE", ToJson(EquateCase)>>)
           [] OTHER -> TRUE
 
